@@ -100,7 +100,7 @@ func diffCmd(args []string) {
 	if err != nil {
 		panic(err)
 	}
-	inst := eng.Instance{Name: fn, Pkg: pkg, Func: fn, Cfg: eng.Config{DefaultUnwind: 8}}
+	inst := eng.Instance{Name: fn, Pkg: pkg, Func: fn, Cfg: eng.Config{DefaultUnwind: 9, Rounds: 1, NoResize: map[int]bool{0: true, 1: true}}}
 	for _, a := range args[3:] {
 		v, _ := strconv.ParseInt(a, 0, 64)
 		inst.Args = append(inst.Args, v)
@@ -111,13 +111,19 @@ func diffCmd(args []string) {
 	if err != nil {
 		panic(err)
 	}
-	r := eng.Discharge(xs, inst, eng.SolveOpts{})
-	if len(r.Violations) == 0 {
-		fmt.Println("no violation under pinned inputs: status", r.Status)
-		return
+	r := eng.Discharge(xs, inst, eng.SolveOpts{PreferReach: os.Getenv("GSX_DIFF_REACH")})
+	var m *eng.Model
+	if os.Getenv("GSX_DIFF_REACH") != "" {
+		m = r.ReachModel
+		fmt.Println("using reach model", r.ReachLabel)
+	} else {
+		if len(r.Violations) == 0 {
+			fmt.Println("no violation under pinned inputs: status", r.Status)
+			return
+		}
+		m = r.Violations[0].Model
+		fmt.Println("violation:", r.Violations[0].Oblig.Msg)
 	}
-	m := r.Violations[0].Model
-	fmt.Println("violation:", r.Violations[0].Oblig.Msg)
 	for _, ob := range xs.Obligs {
 		if m.Eval(ob.Cond) == 1 {
 			fmt.Printf("MODEL-TRUE obligation %s: %s (%s)\n", ob.Kind, ob.Msg, ob.Pos)
